@@ -5,13 +5,13 @@ go 1.23.0
 require (
 	github.com/Dash-Industry-Forum/livesim2 v0.0.0
 	github.com/Eyevinn/mp4ff v0.47.0
+	github.com/beevik/etree v1.5.0
 )
 
 require (
 	github.com/Comcast/gots/v2 v2.2.1 // indirect
 	github.com/Eyevinn/dash-mpd v0.12.0 // indirect
 	github.com/barkimedes/go-deepcopy v0.0.0-20220514131651-17c30cfc62df // indirect
-	github.com/beevik/etree v1.5.0 // indirect
 	github.com/beorn7/perks v1.0.1 // indirect
 	github.com/caddyserver/certmagic v0.22.0 // indirect
 	github.com/caddyserver/zerossl v0.1.3 // indirect
